@@ -161,6 +161,7 @@ type c09Finding struct {
 }
 
 type c09Obs struct {
+	SelfStopped bool // the actor system stopped by itself (judged as its own finding)
 	Knobs      c09Knobs
 	Nodes      int
 	Ops        []string
@@ -701,6 +702,16 @@ func c09RunCase(t *testing.T, k c09Knobs, seed int64) (obs c09Obs) {
 		obs.Watchdog = "death watch / harness actors did not become idle within 40s"
 	}
 
+	// the actor system must not go down by itself: a Stop directive can make the
+	// death-watch actor fail (nil dereference on a cleared tree node) and the system
+	// guardian then shuts everything down (same finding as in C07); every actor is
+	// stopped behind the scenario's back then, so nothing else is judged in this case
+	if !sys.Running() {
+		c.find("system:stopped-while-supervising-user-actors", "the actor system stopped by itself during the scenario; ops=%v", ops)
+		obs.Findings = c.finds
+		obs.SelfStopped = true
+		return obs
+	}
 	if k.Mix == "system-stop" {
 		op := c09Op{Kind: "system-stop", Target: "*", Call: c.lg.seq.Add(1)}
 		sysStopped = true
